@@ -115,6 +115,11 @@ pub fn gen(prop: &str, tier: &str, seed: u64, out: &mut Vec<String>) {
                         let m = *r.pick(&[1u64, 7, 63, 64, 1000, 1023, 1024, 1025, 4097]);
                         out.push(format!("ob {b} {bs} {e}+t{m}"));
                     }
+                    // `create` on a reader that is not at its start (a header was read, or an earlier `create` ran)
+                    for e in ["sync-create-preIo", "sync-create-postIo"] {
+                        let k = *r.pick(&[1u64, 8, 1024, size / 2, size.saturating_sub(1), size]);
+                        out.push(format!("ob {b} {bs} {e}+p{k}"));
+                    }
                     out.push(format!("glue {b} {bs}"));
                 }
             }
@@ -391,6 +396,19 @@ pub fn gen(prop: &str, tier: &str, seed: u64, out: &mut Vec<String>) {
                                 };
                                 let pre = |r: &mut Rng, claimed: u64| format!("{} {b} {claimed} {bs} {ql}", op(r));
                                 out.push(format!("{} {src} 0:0:$", pre(&mut r, size)));
+                                if prop == "C01" {
+                                    // one read of the stream fails transiently (the reader would carry on if asked again):
+                                    // whatever the driver does then, nothing but true bytes / pairs may reach the sinks
+                                    let nitems = crate::gen3::item_boundaries(size, bs, q).len() as u64;
+                                    for _ in 0..if t { 6 } else { 3 } {
+                                        let k = if r.chance(1, 2) { r.below(nitems.min(6) + 1) } else { r.below(nitems + 1) };
+                                        let fk = *r.pick(&["Other", "Interrupted", "Interrupted", "UnexpectedEof", "ConnectionReset"]);
+                                        let fl = if r.chance(2, 3) { "fsm" } else { "sync" };
+                                        let sink = *r.pick(SINKS);
+                                        let expr = if r.chance(3, 4) { "0:0:$".to_string() } else { format!("0:0:$~{}^{}", r.below(len + 1), 1 + r.below(255)) };
+                                        out.push(format!("decrt {k} {fk} {fl} {sink} {b} {bs} {ql} {src} {expr} {}", 1 + r.below(200)));
+                                    }
+                                }
                                 let n = if t { 30 } else { 6 };
                                 for _ in 0..n {
                                     let p = if r.chance(1, 2) { r.below(300.min(len + 1)) } else { r.below(len + 1) };
